@@ -148,6 +148,45 @@ Theorem C15_close_proxy_consults_all : forall ps script c,
 Proof. exact (ir_close_consults_all gen_ops gen_fields gen_register gen_methods (eq_refl true)). Qed.
 Print Assumptions C15_close_proxy_consults_all.
 
+(** every_configured_entry_is_consulted: the chain is derived from the CONFIGURATION as the operator
+    wrote it -- a list of httpPlugins entries (name, ops) with arbitrary names, duplicates and empty
+    names included -- through every place that touches ServerConfig.HTTPPlugins between the decoded
+    file and Manager.Register (gen_cfg_uses, T6: the registration loop of NewService, read-only loops,
+    and nothing else outside the legacy-INI conversion).  The identity of an entry is its position. *)
+Theorem C15_configuration_yields_the_chain : forall o (es : list cfg_entry) script c,
+  cfg_sem gen_cfg_uses gen_ops gen_fields gen_register gen_methods o es script c
+  = spec_sem o (number_from 1 es) script c.
+Proof. exact (cfg_sem_spec gen_cfg_uses gen_ops gen_fields gen_register gen_methods (eq_refl true) (eq_refl true)). Qed.
+Print Assumptions C15_configuration_yields_the_chain.
+
+Theorem C15_every_configured_entry_is_consulted : forall o (es : list cfg_entry) script c,
+  (is_gating o = false \/
+   exists c', fst (cfg_sem gen_cfg_uses gen_ops gen_fields gen_register gen_methods o es script c) = ROk c') ->
+  forall i e, nth_error es i = Some e ->
+    existsb (String.eqb (op_value o)) (snd e) = true ->
+    In (1 + Z.of_nat i)
+       (map (fun x : consult => fst (fst x))
+            (snd (cfg_sem gen_cfg_uses gen_ops gen_fields gen_register gen_methods o es script c))).
+Proof. exact (cfg_every_entry_consulted gen_cfg_uses gen_ops gen_fields gen_register gen_methods (eq_refl true) (eq_refl true)). Qed.
+Print Assumptions C15_every_configured_entry_is_consulted.
+
+Theorem C15_configured_entries_consulted_in_order : forall o (es : list cfg_entry) script c,
+  exists k, map (fun x : consult => fst (fst x))
+                (snd (cfg_sem gen_cfg_uses gen_ops gen_fields gen_register gen_methods o es script c))
+            = firstn k (registered_for o (number_from 1 es)).
+Proof. exact (cfg_consulted_in_order gen_cfg_uses gen_ops gen_fields gen_register gen_methods (eq_refl true) (eq_refl true)). Qed.
+Print Assumptions C15_configured_entries_consulted_in_order.
+
+(** one configured entry that names the operation and does not accept -- whatever its name, wherever
+    it stands -- and the operation is refused *)
+Theorem C15_configuration_fails_closed : forall o (es : list cfg_entry) script c c' i e,
+  is_gating o = true -> nth_error es i = Some e ->
+  existsb (String.eqb (op_value o)) (snd e) = true ->
+  is_accept (classify (script (1 + Z.of_nat i))) = false ->
+  fst (cfg_sem gen_cfg_uses gen_ops gen_fields gen_register gen_methods o es script c) <> ROk c'.
+Proof. exact (cfg_fail_closed gen_cfg_uses gen_ops gen_fields gen_register gen_methods (eq_refl true) (eq_refl true)). Qed.
+Print Assumptions C15_configuration_fails_closed.
+
 (** hypotheses are satisfiable / the statements are not vacuous *)
 Example C15_ex_threading :
   run_chain [AcceptModified (hx "01"); AcceptUnchanged; AcceptModified (hx "02")] (hx "00")
@@ -182,3 +221,13 @@ Example C15_ex_notifications :
                           CRegister (hx "61") true; CSessionEnd [hx "62"; hx "61"]] = Some s /\
             cs_notes s = [hx "61"; hx "62"; hx "61"].
 Proof. eexists. split; reflexivity. Qed.
+
+(* two unnamed entries, the second one rejects: both are consulted, the login is refused *)
+Example C15_ex_two_unnamed_entries :
+  cfg_sem gen_cfg_uses gen_ops gen_fields gen_register gen_methods OLogin
+          [(""%string, ["Login"]%string); (""%string, ["Login"]%string)]
+          (fun i => if i =? 1 then HRes {| h_reject := false; h_reason := []; h_unchange := true; h_content := None |}
+                    else HRes {| h_reject := true; h_reason := hx "6e6f"; h_unchange := true; h_content := None |})
+          (hx "00")
+  = (RRejected (hx "6e6f"), [(1, "Login"%string, hx "00"); (2, "Login"%string, hx "00")]).
+Proof. reflexivity. Qed.
